@@ -316,7 +316,7 @@ func c17Run(c *evid.Ctx, cs c17Case) {
 }
 
 func runC17(c *evid.Ctx) {
-	c.Rule("linear cluster histories with exactly one injected mutation inside a verified checkpoint range: position in {first = the previous checkpoint entry, last, middle}, field in {term, type, data flip/truncate/extend/empty, extensions add/change, index (at rest), the Data of two entries swapped, two whole entries swapped at rest}, site in {in flight to a follower, at rest on the follower, at rest on the leader}, with and without a follower middleware restart inside the range (which decides whether the written sum is compared), and in a third of the cases with a head truncation far below the range landing while the victim's verifier reads the range; the delivered report for that range must carry ErrChecksumMismatch, and no report may blame in-flight corruption when the node wrote exactly the leader's entries; non-trivial = distinct (site, field, position, restart) whose report was delivered",
+	c.Rule("linear cluster histories with exactly one injected mutation inside a verified checkpoint range: position in {first = the previous checkpoint entry, last, middle}, field in {term, type, data flip/truncate/extend/empty, extensions add/change, index (at rest), the Data of two entries swapped, two whole entries swapped at rest}, site in {in flight to a follower, at rest on the follower, at rest on the leader}, with and without a follower middleware restart inside the range (which decides whether the written sum is compared), and in a third of the cases with a head truncation far below the range landing while the victim's verifier reads the range; the delivered report for that range must carry ErrChecksumMismatch, and no report may blame in-flight corruption when the node wrote exactly the leader's entries (also checked on mutation-free random cluster histories with leader restarts, leadership changes, truncations and refused appends); non-trivial = distinct (site, field, position, restart) whose report was delivered",
 		"mutations_injected", "mutation_classes")
 	c.Assume("FNV-1a collisions are not searched for", "the index-1 configuration entry special case is excluded")
 	reps := 40
@@ -355,4 +355,14 @@ func runC17(c *evid.Ctx) {
 	}
 	close(jobs)
 	wg.Wait()
+	// second sentence of the property on histories without any mutation: leadership changes,
+	// restarts (of leaders too), truncations, refused appends - nobody may be blamed for
+	// in-flight corruption
+	nClean := 400
+	if !quick(c) {
+		nClean = 40000
+	}
+	for i := 0; i < nClean; i++ {
+		c16HistoryMode(c, c.Seed*1000033+int64(i), true)
+	}
 }
